@@ -85,6 +85,12 @@ Definition call_tail (ord : arg_order) (fns : list fn) (fuel' : nat) (genv : nen
       end
   end.
 
+(* what nat_expr does with the element values of an array literal, and with the two operand values of (at a i) *)
+Definition arr_tail (vs : list value) (out1 : list N) : nres value :=
+  match ints_of vs with Some l => NOk (VArr l) out1 | None => NStuck end.
+Definition at_tail (vs : list value) (out2 : list N) : nres value :=
+  match vs with [va; vi] => nat_at va vi out2 | _ => NStuck end.
+
 (* how run_nat turns the result of "globals; main()" into an outcome *)
 Definition nat_finish (r : nres value) : nat_outcome :=
   match r with
